@@ -453,6 +453,8 @@ func checkC18(c *Ctx) {
 	checkSnapshotImmutable(c, "R5")
 	checkHookOrder(c, "R7")
 	c.Expect("R7", 2)
+	c.Rule("R9", "the node that answers is the node asked: a request addressed to a host is sent to the connection of that address or failed")
+	checkRequestGoesToTheAddressAsked(c, "R9")
 	c.Rule("R8", "no object that is given back to a sync.Pool is still captured by a registered completion hook")
 	checkNoPooledObjectInHook(c, "R8")
 }
@@ -795,5 +797,60 @@ func checkNoPooledObjectInHook(c *Ctx, rule string) {
 	}
 	if nHooks == 0 {
 		c.Unresolved(rule, "no hook registration found")
+	}
+}
+
+// checkRequestGoesToTheAddressAsked (C18.R9): SCAN files the keys and the cursor of a reply under the node index it
+// asked; the function that sends a request to a given address therefore sends it to that address or fails it - a
+// fallback to "some other member, it will redirect" makes node j answer for node i, and the iteration ends without
+// node i's keys.
+func checkRequestGoesToTheAddressAsked(c *Ctx, rule string) {
+	p := c.P
+	mrth := p.Func(redisPkg, "(*upstream).MakeRequestToHost")
+	if mrth == nil {
+		c.Unresolved(rule, "(*upstream).MakeRequestToHost")
+		return
+	}
+	var addr *ssa.Parameter
+	for _, prm := range mrth.Params[1:] {
+		if b, ok := prm.Type().Underlying().(*types.Basic); ok && b.Kind() == types.String {
+			addr = prm
+		}
+	}
+	if addr == nil {
+		c.Unresolved(rule, "address parameter of MakeRequestToHost")
+		return
+	}
+	n := 0
+	for _, fn := range append([]*ssa.Function{mrth}, staticCalleesDeep(mrth, 1)...) {
+		if fn != mrth {
+			continue
+		}
+		eachInstr(fn, func(_ *ssa.BasicBlock, _ int, in ssa.Instruction) {
+			call, ok := in.(*ssa.Call)
+			if !ok {
+				return
+			}
+			g := calleeFn(call.Common())
+			if g == nil || !isModFn(g) || g.Signature.Results().Len() == 0 {
+				return
+			}
+			// a function that hands out a backend connection for an address
+			r0 := g.Signature.Results().At(0).Type()
+			if pt, isPtr := r0.Underlying().(*types.Pointer); !isPtr || !modType(pt, redisPkg, "client") {
+				return
+			}
+			n++
+			okArg := false
+			for _, a := range call.Call.Args {
+				if stripConv(a) == ssa.Value(addr) {
+					okArg = true
+				}
+			}
+			c.Check(okArg, rule, fmt.Sprintf("%s connection lookup#%d uses the address asked", fnKey(fn), n), call.Pos(), "the connection is looked up for the address parameter", "a request addressed to one node is handed to the connection of another address: keyed commands correct themselves through MOVED, but SCAN files the answer under the node it asked - the keys and the cursor of node j are taken for node i's, and the iteration finishes without node i's keys")
+		})
+	}
+	if n == 0 {
+		c.Unresolved(rule, "MakeRequestToHost does not look a connection up")
 	}
 }
